@@ -100,6 +100,9 @@ def run(sdir, tier="quick", inplace=False):
             sh("git -C /repo checkout -- .")
         else:
             rm_worktree(tree)
+            # the run against a scratch tree left its evidence / replays / model evaluations under build/alt/<hash of the path>
+            import hashlib
+            shutil.rmtree(os.path.join(HERE, "build", "alt", hashlib.sha1(tree.encode()).hexdigest()[:10]), ignore_errors=True)
     meta.setdefault("check_runs", [])
     meta["check_runs"] = [x for x in meta["check_runs"] if x.get("tier") != tier] + [out]
     meta["detected"] = any(x.get("detected") for x in meta["check_runs"])
